@@ -564,6 +564,11 @@ fn build_at(spec: &ProgSpec, orig: u16, force_orig_line: bool) -> Built {
             b.label(format!("D{k}"));
             b.emit(Stmt::new(Op::Fill, &[], Operand::Lit(Lit::Hex(spec.data[k % spec.data.len()], 0))));
         }
+        // labels that differ from others only in letter case (label names are case-sensitive)
+        for (name, k) in [("d0", 2usize), ("d3", 5), ("v1", 6), ("Main", 7)] {
+            b.label(name.to_string());
+            b.emit(Stmt::new(Op::Fill, &[], Operand::Lit(Lit::Hex(spec.data[k % spec.data.len()] ^ 0x0F0F, 0))));
+        }
         for k in 0..4 {
             // pointers: patched after layout (P0,P1 -> data slots; P2,P3 -> outside the program)
             b.label(format!("P{k}"));
